@@ -73,6 +73,15 @@ def run_case(case):
     copies = [[1, len(terms)], [1, 2]]
     eq, hs = matrix(terms)
     evs.append({"kind": "term", "objs": [d_term(t) for t in terms], "eq": eq, "hash": hs, "copies": copies})
+    # --- terms and lists without variables (what x + 3 <= x leaves): only the constant tells them apart
+    k1, k2 = rng.choice([3, 1, 0]), rng.choice([-2, -1, 5])
+    frees = [gen.mk_term(r) for r in [({}, k1), ({}, k1), ({}, k2), ({}, 0), ({}, -0.0), t0]]
+    frees.append(frees[0].copy())
+    eq, hs = matrix(frees)
+    evs.append({"kind": "term", "objs": [d_term(t) for t in frees], "eq": eq, "hash": hs, "copies": [[1, 7], [1, 2]]})
+    flists = [gen.mk_list(x) for x in ([({}, k1)], [({}, k1)], [({}, k2)], [({}, k1), t0], [({}, k2), t0], [t0, ({}, k1)], [t0])]
+    eq, hs = matrix(flists)
+    evs.append({"kind": "list", "objs": [d_list(x) for x in flists], "eq": eq, "hash": hs, "copies": [[1, 2]]})
     # --- lists
     rows = d["g"] + d["a"]
     L0 = gen.mk_list(rows)
@@ -108,6 +117,8 @@ def run_case(case):
     if d["a"]:
         variant(a=[(dict(d["a"][0][0]), d["a"][0][1] + 1)] + d["a"][1:])
     variant(g=list(reversed(d["g"])))
+    variant(a=d["a"] + [({}, 2)])            # assumptions that differ only in a row without variables
+    variant(a=d["a"] + [({}, 7)])
     eq, hs = matrix(objs)
     evs.append({"kind": "contract", "objs": [d_contract(x) for x in objs], "eq": eq, "hash": hs, "copies": copies})
     # --- a contract edited in place after it was hashed (IoContract.simplify() replaces the guarantees)
@@ -215,7 +226,7 @@ def main(tier, replay=None):
             nontriv.add(digest([ev["kind"], ev["objs"]]))
             if kind == "violation":
                 rep.violation({"kind": ev["kind"], "law": detail}, {"case": by_id[t["id"]], "event": ev, "verdict": [kind, detail]})
-            if l == 3 and len(rep.cov["samples"]) < 2:
+            if ev["kind"] == "contract" and len(rep.cov["samples"]) < 2:
                 rep.sample({"kind": ev["kind"], "objects": ev["objs"][:6], "eq_matrix": [r[:6] for r in ev["eq"][:6]], "hash_ids": ev["hash"][:6]})
     shutil.rmtree(rd, ignore_errors=True)
     # sessions around hashing and the in-place IoContract.simplify(): "equal objects hash equally" at every point of a history
